@@ -63,10 +63,20 @@ def random_history(rng, mod, kind, length):
         try:
             if op == "insert":
                 ch = CHANS[str(rng.choice(["HH", "Na", "K", "Km", "Leak", "CaL"]))]()
+                if rng.random() < 0.4 and len(mod.channels):
+                    # a region disjoint from the channels that are already there (shared columns then live in different rows)
+                    free = [int(r) for r in range(n) if not any(bool(mod.nodes.loc[r, c._name]) for c in mod.channels)]
+                    if free:
+                        rows = sorted(rng.choice(free, size=int(rng.integers(1, len(free) + 1)), replace=False).tolist()); view = mod.select(nodes=rows)
                 tok = f"insert rows={csv(rows)} {chan_tokens(ch)}"
                 view.insert(ch)
             elif op == "delchan":
                 ch = CHANS[str(rng.choice(["HH", "Na", "K", "Km", "Leak", "CaL"]))]()
+                if rng.random() < 0.7 and len(mod.channels):
+                    ch = CHANS[str(rng.choice([c._name for c in mod.channels]))]()
+                    if rng.random() < 0.6:
+                        # through the view that holds exactly this channel (the last instance disappears while other channels stay outside)
+                        rows = [int(r) for r in range(n) if bool(mod.nodes.loc[r, ch._name])]; view = mod.select(nodes=rows)
                 tok = f"delchan rows={csv(rows)} {chan_tokens(ch)}"
                 view.delete_channel(ch)
             elif op == "set":
@@ -147,6 +157,30 @@ def random_history(rng, mod, kind, length):
         except tuple(ERRK) as ex:
             if tok is None:
                 continue
+            ops.append(tok); obs.append("err " + ERRK[type(ex)])
+    return ops, obs
+
+
+DIRECTED = [("Na", "K"), ("K", "Na"), ("K", "Km"), ("Km", "K"), ("HH", "Leak"), ("CaL", "K"), ("Na", "Km")]
+
+
+def directed_history(R, rng, mod, pair, kind):
+    """two channels (sharing columns / current names for most pairs) in DISJOINT regions; the first is then deleted through the
+    view that holds it, then the second likewise: every step is compared with the model like any other history"""
+    n = mod.nodes.shape[0]
+    perm = [int(x) for x in rng.permutation(n)]
+    k = int(rng.integers(1, n)) if n > 1 else 1
+    ra, rb = sorted(perm[:k]), sorted(perm[k:]) or sorted(perm[:k])
+    ops, obs = [], []
+    for what, rows, name in (("insert", ra, pair[0]), ("insert", rb, pair[1]), ("delchan", ra, pair[0]), ("delchan", rb, pair[1])):
+        ch = CHANS[name]()
+        tok = f"{what} rows={csv(rows)} {chan_tokens(ch)}"
+        try:
+            v = mod.select(nodes=rows)
+            v.insert(ch) if what == "insert" else v.delete_channel(ch)
+            ops.append(tok); obs.append(alpha(mod))
+            invariant(R, mod, dict(kind=kind, n=n, ops=list(ops)))     # after EVERY step of a directed history
+        except tuple(ERRK) as ex:
             ops.append(tok); obs.append("err " + ERRK[type(ex)])
     return ops, obs
 
@@ -232,7 +266,12 @@ def run(args):
         n = mod.nodes.shape[0]
         header = f"ops {n} {geom_of(mod)}"
         first = alpha(mod)
-        ops, obs = random_history(rng, mod, kind, int(rng.integers(3, maxlen + 1)))
+        if h < len(DIRECTED):
+            ops, obs = directed_history(R, rng, mod, DIRECTED[h], kind)
+            more = random_history(rng, mod, kind, 3)
+            ops, obs = ops + more[0], obs + more[1]
+        else:
+            ops, obs = random_history(rng, mod, kind, int(rng.integers(3, maxlen + 1)))
         lines.append(" | ".join([header] + ops)); observed.append([first] + obs); metas.append((kind, n, ops))
         R.evaluations += 1
         for o in ops:
